@@ -251,6 +251,19 @@ func runPermits(o *Out, r *rand.Rand, thorough bool, _ []string) {
 		}
 	}
 
+	// (3b) shutdown between the ACCEPT and the transfer: the reply of an offer that was sent before Stop() is processed
+	// after it; the transfer goroutine finds its context cancelled - the slot must come back on that exit too
+	for _, version := range []uint8{0, 1} {
+		sn := startNode(mn, r, nodeOpts{ip: net.IP{34, 5, 7, byte(1 + version)}, port: 9820 + int(version), versions: []uint8{0, 1}, utpLimit: limit, noWorkers: true})
+		target := signRecPad(keyFromSeed(r), net.IP{34, 8, 9, byte(1 + version)}, 7300, 1, 0)
+		sn.p.VerifVersionsCacheSet(target, version)
+		permit, _ := sn.p.Utp.GetOutboundPermit()
+		sn.stop()
+		_, err := sn.p.VerifProcessOffer(target, acceptBytes(version, make([]uint8, 2), 4343), mkReq(2), permit)
+		free := waitFree(sn, false, limit, 2*time.Second)
+		o.Case(fmt.Sprintf("procoffer kind=accepted_after_stop v=%d limit=%d", version, limit), fmt.Sprintf("%s free=%d", errStr(err), free))
+	}
+
 	// (4) gossip with a full offer queue: a slot is taken per target before the request is dropped
 	{
 		g := startNode(mn, r, nodeOpts{ip: net.IP{34, 5, 5, 2}, port: 9802, utpLimit: 8, noWorkers: true})
